@@ -325,3 +325,5 @@ def run(chk, F):
     chk.run_rule("C05.capacity-split", "construction and resize derive shard capacities from the one quotient/remainder split by shard index; fresh shards start empty", 5, capacity_split, F)
     chk.run_rule("C05.weight-once", "an entry's weight is computed once by the weighter and never rewritten", 2, weight_once, F)
     chk.run_rule("C05.index-eviction-pairing", "records leaving the index are unlinked from the eviction container when flagged; indexed records are pushed; clear clears both", 5, index_eviction_pairing, F)
+    from rules import mustcall
+    mustcall.run_for(chk, F, "C05")
